@@ -27,7 +27,15 @@ func NewH2Session(c *Client) *H2Session { return NewH2SessionWith(c) }
 // must give the client a decoder of that size: c.Dec = h2wire.NewDecoderSize(0)).
 func NewH2SessionWith(c *Client, extra ...h2wire.Setting) *H2Session {
 	s := &H2Session{C: c, Col: NewH2Collector(), connWin: 65535, initWin: 65535, strWin: map[uint32]int64{}, maxFrame: 16384}
-	c.StartH2(append([]h2wire.Setting{{ID: 4, Val: 1<<31 - 1}}, extra...)...)
+	ss := []h2wire.Setting{{ID: 4, Val: 1<<31 - 1}}
+	for _, x := range extra { // a SETTINGS frame must not carry the same identifier twice
+		if x.ID == 4 {
+			ss[0] = x
+		} else {
+			ss = append(ss, x)
+		}
+	}
+	c.StartH2(ss...)
 	c.Write(h2wire.WindowUpdate(0, 1<<31-1-65535))
 	synctest.Wait()
 	s.Pump()
